@@ -1,7 +1,7 @@
 SPECIFICATION Spec
 CONSTANTS
-  PairShapes = {"s1","s2b","l1a","l2a","l2d","mlc","l2m","s2m"}
-  PairVals = {"plain","blank","apos","dquo","both","empty","hash","us","semi","lines","tab","res"}
+  PairShapes = {"s1","s2b","l2a","l2d","mlc","l2m"}
+  PairVals = {"plain","blank","apos","dquo","both","empty","hash","semi","lines","tab"}
   PairPrefs = {"impl","bare","sq","dq","text"}
   PairSeps = {"sp","sp3","tab"}
   FullProduct = TRUE
